@@ -644,7 +644,1156 @@ def check_assemble(cfg, timeout):
 CFGS = [{"defi": True, "dict": False}, {"defi": True, "dict": True}, {"defi": False, "dict": False}, {"defi": False, "dict": True}]
 
 
+# =====================================================================================================================
+# Part 2: schema.py - levels along an abstract schema path, LIST / MAP shape predicates
+# =====================================================================================================================
+"""The schema tree is abstract: nodes are integers, RT / CT / NCH give a node's repetition type, converted type (-1 = None) and number
+of children, CHILD(n, k) its k-th child, CHILDNAMED(n, 1 | 2) its child called 'key' | 'value', KV(n) <=> the names of n's children
+are exactly {'key', 'value'}.  The column's path_in_schema has symbolic length L; P(d) is the node reached by its first d names
+(P(0) = root).  Path validity (what SchemaHelper.schema_element's dictionary walk needs not to raise KeyError): P(d+1) is a child of P(d),
+so NCH(P(d)) >= 1 for d < L and, when P(d) has exactly one child, CHILD(P(d), 0) == P(d+1); the leaf P(L) has no children.
+Specification (Parquet format, `Nested Encoding` and LogicalTypes.md `Lists` / `Maps`):
+   max_rep(path) = NREP(L), NREP(0) = 0, NREP(d+1) = NREP(d) + [RT(P(d+1)) == REPEATED]      (number of REPEATED elements on the path)
+   max_def(path) = NDEF(L), NDEF(0) = 0, NDEF(d+1) = NDEF(d) + [RT(P(d+1)) != REQUIRED]      (number of non-REQUIRED elements on the path)
+   LIST layout:  L >= 3, the group P(L-2) is annotated LIST, is not REPEATED itself, has exactly one child, which is REPEATED and has exactly
+                 one child (the leaf), which is not REPEATED
+   MAP layout:   L >= 3, the group P(L-2) is annotated MAP, is not REPEATED, has exactly one child, REPEATED, with exactly the two children
+                 'key' (REQUIRED) and 'value' (not REPEATED)
+"""
+NODE_RT = z3.Function("RT", I, I)
+NODE_CT = z3.Function("CT", I, I)
+NODE_NCH = z3.Function("NCH", I, I)
+CHILD = z3.Function("CHILD", I, I, I)
+CHILDNAMED = z3.Function("CHILD_NAMED", I, I, I)
+KV = z3.Function("CHILD_NAMES_ARE_key_value", I, B)
+PN = z3.Function("P", I, I)
+NREP = z3.Function("NREP", I, I)
+NDEF = z3.Function("NDEF", I, I)
+PATH_LEN = z3.Int("len_path")
+
+
+def enums_from_source():
+    """FieldRepetitionType / ConvertedType values the code compares against: class attributes of parquet_thrift/parquet/ttypes.py"""
+    import os
+    from vlib.common import REPO
+    src = open(os.path.join(REPO, "fastparquet", "parquet_thrift", "parquet", "ttypes.py")).read()
+    out = {}
+    for n in ast.parse(src).body:
+        if isinstance(n, ast.ClassDef) and n.name in ("FieldRepetitionType", "ConvertedType", "PageType", "Encoding"):
+            out[n.name] = {t.id: st.value.value for st in n.body if isinstance(st, ast.Assign) and isinstance(st.value, ast.Constant)
+                           and isinstance(st.value.value, int) for t in st.targets if isinstance(t, ast.Name)}
+    return out
+
+
+class NS:
+    tracked = False
+
+    def __init__(self, d, name="namespace"):
+        self.d, self.name = d, name
+
+    def attr(self, eng, p, name):
+        if name not in self.d:
+            raise Unsupported(f"{self.name}.{name}")
+        return self.d[name]
+
+    def is_none(self, eng, p):
+        return z3.BoolVal(False)
+
+
+def thrift_ns(en):
+    return Custom(NS({k: Custom(NS({n: PyI(v, lit=False) for n, v in vals.items()}, k)) for k, vals in en.items()}, "parquet_thrift"))
+
+
+NAME_IS = z3.Function("NAME_IS", I, I, I, B)           # (which path, position, string id) -> path[position] == that string
+STR_IDS = {}
+
+
+def name_is(pid, idx, s_):
+    return NAME_IS(pid, idx, STR_IDS.setdefault(s_, len(STR_IDS) + 1))
+
+
+class PathV:
+    """column.meta_data.path_in_schema: a list of L names"""
+    tracked = False
+
+    def __init__(self, pid=0):
+        self.pid = pid
+
+    def isinstance(self, eng, p, tn):
+        return z3.BoolVal("list" in tn)
+
+    def is_none(self, eng, p):
+        return z3.BoolVal(False)
+
+    def len(self, eng, p):
+        return PyI(PATH_LEN)
+
+    def slice(self, eng, p, lo, hi, node):
+        if lo is not None:
+            raise Unsupported("path[lo:...]")
+        h = eng.as_int(hi, p) if hi is not None else PATH_LEN
+        d = z3.If(h < 0, z3.If(PATH_LEN + h > 0, PATH_LEN + h, 0), z3.If(h > PATH_LEN, PATH_LEN, h))
+        return Custom(Prefix(z3.simplify(d)))
+
+    def getitem(self, eng, p, i, node=None):
+        k = eng.as_int(i, p)
+        return Custom(NameAt(z3.simplify(z3.If(k < 0, PATH_LEN + k, k)), self.pid))
+
+
+class Prefix:
+    tracked = False
+
+    def __init__(self, d):
+        self.d = d
+
+    def isinstance(self, eng, p, tn):
+        return z3.BoolVal("list" in tn)
+
+
+class NameAt:
+    """the name path[idx] (a str)"""
+    tracked = False
+
+    def __init__(self, idx, pid=0):
+        self.idx, self.pid = idx, pid
+
+    def isinstance(self, eng, p, tn):
+        return z3.BoolVal("str" in tn)
+
+    def call_method(self, eng, p, name, args, kw, node):
+        if name == "split" and len(args) == 1 and isinstance(args[0], Str) and args[0].s == ".":
+            return [(p, Tup([Custom(self)], True))]          # ASSUMED: the name contains no '.'
+        raise Unsupported("str." + name)
+
+    def eq(self, eng, p, other):
+        if isinstance(other, Str):
+            return name_is(self.pid, self.idx, other.s)
+        raise Unsupported("name == <%s>" % type(other).__name__)
+
+
+class PList:
+    """a python list built by append (is_required builds the path prefix this way)"""
+    tracked = False
+
+    def __init__(self, oid):
+        self.oid = oid
+
+    def call_method(self, eng, p, name, args, kw, node):
+        if name == "append":
+            p.ghost["PL"][self.oid] = p.ghost["PL"][self.oid] + [args[0]]
+            return [(p, NONE)]
+        raise Unsupported("list." + name)
+
+
+class Helper:
+    tracked = False
+
+    def call_method(self, eng, p, name, args, kw, node):
+        if name == "schema_element":
+            x = args[0]
+            if isinstance(x, Custom) and isinstance(x.h, Prefix):
+                d = x.h.d
+            elif isinstance(x, Custom) and isinstance(x.h, PathV):
+                d = PATH_LEN
+            elif isinstance(x, Custom) and isinstance(x.h, PList):
+                items = p.ghost["PL"][x.h.oid]
+                ok = all(isinstance(it, Custom) and isinstance(it.h, NameAt) and z3.is_true(z3.simplify(it.h.idx == k)) for k, it in enumerate(items))
+                if not ok:
+                    raise Unsupported("schema_element of a list that is not a prefix of the path")
+                d = z3.IntVal(len(items))
+            else:
+                raise Unsupported("schema_element(<%s>)" % type(x).__name__)
+            eng.oblige(p, f"{eng.cur_func}.schema_element_of_a_path_prefix", "safety", z3.And(d >= 0, d <= PATH_LEN), node,
+                       "schema_element is asked for a prefix of the column's path (anything else raises KeyError)")
+            return [(p, Custom(SE(PN(d))))]
+        if name in ("max_definition_level", "max_repetition_level", "is_required"):
+            raise Unsupported("nested helper call " + name)
+        raise Unsupported("SchemaHelper." + name)
+
+
+class SE:
+    """a schema element (node of the abstract tree)"""
+    tracked = False
+
+    def __init__(self, node):
+        self.node = node
+
+    def is_none(self, eng, p):
+        return z3.BoolVal(False)
+
+    def attr(self, eng, p, name):
+        if name == "repetition_type":
+            return PyI(NODE_RT(self.node))
+        if name == "converted_type":
+            return PyI(NODE_CT(self.node))
+        raise Unsupported("SchemaElement." + name)
+
+    def getitem(self, eng, p, i, node=None):
+        if isinstance(i, Str) and i.s == "children":
+            return Custom(Children(self.node))
+        raise Unsupported("SchemaElement[...]")
+
+
+class Children:
+    tracked = False
+
+    def __init__(self, node):
+        self.node = node
+
+    def len(self, eng, p):
+        return PyI(NODE_NCH(self.node))
+
+    def call_method(self, eng, p, name, args, kw, node):
+        if name == "values" and not args:
+            return [(p, Custom(ChildVals(self.node)))]
+        raise Unsupported("dict." + name)
+
+    def getitem(self, eng, p, i, node=None):
+        if isinstance(i, Str) and i.s in ("key", "value"):
+            eng.oblige(p, f"{eng.cur_func}.child_name_exists[{i.s}]", "safety", KV(self.node), node, "children[name] with a name that exists (KeyError otherwise)")
+            return Custom(SE(CHILDNAMED(self.node, 1 if i.s == "key" else 2)))
+        raise Unsupported("children[<%s>]" % type(i).__name__)
+
+
+class ChildVals:
+    tracked = False
+
+    def __init__(self, node):
+        self.node = node
+
+    def getitem(self, eng, p, i, node=None):
+        k = eng.as_int(i, p)
+        eng.oblige(p, f"{eng.cur_func}.child_index_in_range", "safety", z3.And(k >= 0, k < NODE_NCH(self.node)), node,
+                   "list(children.values())[k] exists (IndexError otherwise)")
+        return Custom(SE(CHILD(self.node, k)))
+
+
+class NameSet:
+    tracked = False
+
+    def __init__(self, node):
+        self.node = node
+
+    def eq(self, eng, p, other):
+        if isinstance(other, Custom) and isinstance(other.h, SetLit) and other.h.items == frozenset(("key", "value")):
+            return KV(self.node)
+        raise Unsupported("set comparison")
+
+
+class SetLit:
+    tracked = False
+
+    def __init__(self, items):
+        self.items = items
+
+    def eq(self, eng, p, other):
+        if isinstance(other, Custom) and isinstance(other.h, NameSet):
+            return other.h.eq(eng, p, Custom(self))
+        raise Unsupported("set comparison")
+
+
+def _schema_engine(funcs, en, loops=None):
+    def h_set(eng, p, args, kw, node):
+        if len(args) == 1 and isinstance(args[0], Custom) and isinstance(args[0].h, Children):
+            return [(p, Custom(NameSet(args[0].h.node)))]
+        raise Unsupported("set(...)")
+    eng = Engine(funcs=funcs, handlers={"set": h_set}, loops=loops or {})
+
+    def e_set(node, p):
+        vals = [eng.ev1(x, p) for x in node.elts]
+        if all(isinstance(v, Str) for v in vals):
+            return [(p, Custom(SetLit(frozenset(v.s for v in vals))))]
+        raise Unsupported("set literal")
+
+    orig_list = eng.e_List
+
+    def e_list(node, p):
+        if not node.elts:
+            oid = f"pl!{next(eng.counter)}"
+            p.ghost.setdefault("PL", {})
+            p.ghost["PL"][oid] = []
+            return [(p, Custom(PList(oid)))]
+        return orig_list(node, p)
+    eng.e_Set = e_set
+    eng.e_List = e_list
+    return eng
+
+
+def path_facts(en, ds):
+    """path validity + leaf, instantiated at the depths ds"""
+    f = [PATH_LEN >= 1, PATH_LEN < 2 ** 20, NODE_NCH(PN(PATH_LEN)) == 0]
+    for d in ds:
+        f.append(z3.Implies(z3.And(0 <= d, d < PATH_LEN), z3.And(NODE_NCH(PN(d)) >= 1, z3.Implies(NODE_NCH(PN(d)) == 1, CHILD(PN(d), 0) == PN(d + 1)))))
+        f.append(NODE_NCH(PN(d)) >= 0)
+    return f
+
+
+def count_defs(k):
+    REQ, REPD = _EN["FieldRepetitionType"]["REQUIRED"], _EN["FieldRepetitionType"]["REPEATED"]
+    return [NREP(0) == 0, NDEF(0) == 0,
+            NREP(k + 1) == NREP(k) + z3.If(NODE_RT(PN(k + 1)) == REPD, 1, 0),
+            NDEF(k + 1) == NDEF(k) + z3.If(NODE_RT(PN(k + 1)) != REQ, 1, 0)]
+
+
+_EN = {}
+
+
+def list_layout(en):
+    L, RT = PATH_LEN, en["FieldRepetitionType"]
+    o, m, leaf = PN(L - 2), PN(L - 1), PN(L)
+    return z3.And(L >= 3, NODE_CT(o) == en["ConvertedType"]["LIST"], NODE_RT(o) != RT["REPEATED"], NODE_NCH(o) == 1,
+                  NODE_RT(m) == RT["REPEATED"], NODE_NCH(m) == 1, NODE_RT(leaf) != RT["REPEATED"])
+
+
+def map_layout(en):
+    L, RT = PATH_LEN, en["FieldRepetitionType"]
+    o, m = PN(L - 2), PN(L - 1)
+    return z3.And(L >= 3, NODE_CT(o) == en["ConvertedType"]["MAP"], NODE_RT(o) != RT["REPEATED"], NODE_NCH(o) == 1,
+                  NODE_RT(m) == RT["REPEATED"], NODE_NCH(m) == 2, KV(m),
+                  NODE_RT(CHILDNAMED(m, 1)) == RT["REQUIRED"], NODE_RT(CHILDNAMED(m, 2)) != RT["REPEATED"])
+
+
+def _mf_schema(en):
+    def mf(m):
+        L = mv(m, PATH_LEN)
+        out = {"len_path": L}
+        try:
+            for nm, d in (("outer", PATH_LEN - 2), ("middle", PATH_LEN - 1), ("leaf", PATH_LEN)):
+                out[nm] = {"repetition_type": mv(m, NODE_RT(PN(d))), "converted_type": mv(m, NODE_CT(PN(d))), "n_children": mv(m, NODE_NCH(PN(d)))}
+            out["children_named_key_value"] = mv(m, KV(PN(PATH_LEN - 1)))
+            out["key.repetition_type"] = mv(m, NODE_RT(CHILDNAMED(PN(PATH_LEN - 1), 1)))
+            out["value.repetition_type"] = mv(m, NODE_RT(CHILDNAMED(PN(PATH_LEN - 1), 2)))
+        except Exception:
+            pass
+        return out
+    return mf
+
+
+def check_levels(which, timeout):
+    """SchemaHelper.max_repetition_level / max_definition_level: one arbitrary iteration of the path loop"""
+    from vc.front_py import parse_module
+    res = KResults()
+    funcs, tree, src = parse_module("fastparquet/schema.py")
+    en = enums_from_source()
+    _EN.update(en)
+    fn = "SchemaHelper." + which
+    SPEC = NREP if which == "max_repetition_level" else NDEF
+    mf = _mf_schema(en)
+    state = {}
+
+    def hook(eng, st, p):
+        it = st.iter
+        if not (isinstance(it, ast.Call) and isinstance(it.func, ast.Name) and it.func.id == "range" and len(it.args) == 1 and isinstance(st.target, ast.Name)):
+            raise Unsupported("the path loop is not `for <name> in range(<n>)`")
+        hi = eng.as_int(eng.ev1(it.args[0], p), p)
+        post(res, f"{which}.loop_runs_over_the_whole_path", p.pc, hi == PATH_LEN, timeout, "range(len(parts))", mf)
+        if "max_level" not in p.env:
+            raise Unsupported("local `max_level` not found")
+        post(res, f"{which}.invariant_on_entry", list(p.pc) + count_defs(z3.IntVal(0)), eng.as_int(p.env["max_level"], p) == SPEC(0), timeout,
+             "max_level == 0 before the first path element", mf)
+        q = p.fork()
+        k = z3.Int("k_iter")
+        m0 = z3.Int("max_level_iter")
+        for nm in sorted(assigned_names(st.body)):
+            if nm in q.env and nm != "max_level":
+                v = q.env[nm]
+                if isinstance(v, (PyI, PyB, CI, Opaque)):
+                    q.env[nm] = eng.havoc_like(v, nm + "_havoc", q)
+                else:
+                    q.env[nm] = Opaque(f"{nm}_havoc!{next(eng.counter)}")
+        q.env["max_level"] = PyI(m0)
+        q.env[st.target.id] = PyI(k)
+        q.pc += [0 <= k, k < PATH_LEN, m0 == SPEC(k)] + count_defs(k)
+        for b in eng.block(st.body, [q]):
+            if b.ctl not in (None, "continue"):
+                res.addk(f"{which}.step_counts_this_element", "functional", REFUTED, {"ctl": str(b.ctl)}, 0.0, "trace", "the loop must not end early")
+                continue
+            post(res, f"{which}.step_counts_this_element", list(b.pc) + list(b.axioms), eng.as_int(b.env["max_level"], b) == SPEC(k + 1), timeout,
+                 "after looking at path element k+1 (schema_element(parts[:k+1])) max_level == count over the first k+1 elements", mf)
+        ex = p.fork()
+        mx = z3.Int("max_level_exit")
+        ex.env["max_level"] = PyI(mx)
+        ex.pc += [mx == SPEC(PATH_LEN)]
+        return [ex]
+
+    eng = _schema_engine(funcs, en, loops={(fn, 0): LoopSpec("hook", inv=hook)})
+    p = Path()
+    p.pc += path_facts(en, [])
+    try:
+        outs = eng.run(fn, p, [Custom(Helper()), Custom(PathV())], closure={"parquet_thrift": thrift_ns(en)})
+    except Unsupported as ex:
+        res.addk(f"{which}.out_of_reach", "functional", UNKNOWN, None, 0.0, "engine", str(ex))
+        return res
+    res.take_engine(eng, "", timeout, mf)
+    n = 0
+    for q in outs:
+        if q.ctl[0] != "ret":
+            res.addk(f"{which}.result_is_spec_count", "functional", REFUTED, {"ctl": str(q.ctl)}, 0.0, "trace", "must return")
+            continue
+        n += 1
+        what = "number of REPEATED elements on the path" if which == "max_repetition_level" else "number of non-REQUIRED elements on the path"
+        post(res, f"{which}.result_is_spec_count", list(q.pc) + list(q.axioms), eng.as_int(q.ctl[1], q) == SPEC(PATH_LEN), timeout, "result == " + what, mf)
+    if n == 0:
+        res.addk(f"{which}.result_is_spec_count", "functional", UNKNOWN, None, 0.0, "engine", "no returning path")
+    return res
+
+
+def check_layout_levels(timeout):
+    """corollary of the two counting specifications for a top-level 3-level LIST / MAP column (L == 3): max_rep == 1 and
+    max_def == [outer OPTIONAL] + 1 + [leaf OPTIONAL]: what Part 1's precondition and core.read_col's `null` / `null_val` rely on"""
+    res = KResults()
+    en = enums_from_source()
+    _EN.update(en)
+    RT = en["FieldRepetitionType"]
+    mf = _mf_schema(en)
+    defs = count_defs(z3.IntVal(0)) + count_defs(z3.IntVal(1)) + count_defs(z3.IntVal(2))
+    for nm, lay, leafs in (("list", list_layout(en), [PN(3)]), ("map", map_layout(en), [CHILDNAMED(PN(2), 1), CHILDNAMED(PN(2), 2)])):
+        for leaf in leafs:
+            tag = nm if nm == "list" else nm + (".key" if leaf is leafs[0] else ".value")
+            cs = defs + [PATH_LEN == 3, lay, PN(3) == leaf, NODE_RT(PN(1)) >= 0, NODE_RT(PN(1)) <= 2, NODE_RT(leaf) >= 0, NODE_RT(leaf) <= 2]
+            r = solve(cs, timeout)
+            res.addk(f"levels[{tag}].layout_satisfiable", "functional", PROVED if r[0] == REFUTED else UNKNOWN, None, r[2], "z3", "vacuity guard")
+            post(res, f"levels[{tag}].max_rep_is_1", cs, NREP(3) == 1, timeout, "a leaf of the 3-level layout has exactly one REPEATED ancestor-or-self", mf)
+            post(res, f"levels[{tag}].max_def_is_null_plus_1_plus_null_val", cs,
+                 NDEF(3) == z3.If(NODE_RT(PN(1)) != RT["REQUIRED"], 1, 0) + 1 + z3.If(NODE_RT(leaf) != RT["REQUIRED"], 1, 0), timeout,
+                 "max_def == [outer group not REQUIRED] + 1 + [leaf not REQUIRED]  (core.read_col: null = not is_required(path[0]), "
+                 "null_val = se.repetition_type != REQUIRED)", mf)
+    # the enum values the code uses are those of the IDL
+    try:
+        from spec import thrift_idl
+        idl = thrift_idl.load()
+        ok = all(idl.enums[k] == v for k, v in en.items())
+        res.addk("enums.match_idl", "functional", PROVED if ok else REFUTED, None if ok else {"source": en}, 0.0, "table",
+                 "FieldRepetitionType / ConvertedType / PageType / Encoding values in parquet_thrift/parquet/ttypes.py == parquet.thrift")
+    except Exception as ex:
+        res.addk("enums.match_idl", "functional", UNKNOWN, None, 0.0, "engine", str(ex))
+    return res
+
+
+def check_is_required(timeout):
+    from vc.front_py import parse_module
+    res = KResults()
+    funcs, tree, src = parse_module("fastparquet/schema.py")
+    en = enums_from_source()
+    _EN.update(en)
+    mf = _mf_schema(en)
+    eng = _schema_engine(funcs, en)
+    p = Path()
+    p.pc += path_facts(en, [])
+    try:
+        outs = eng.run("SchemaHelper.is_required", p, [Custom(Helper()), Custom(NameAt(z3.IntVal(0)))], closure={"parquet_thrift": thrift_ns(en)})
+    except Unsupported as ex:
+        res.addk("is_required.out_of_reach", "functional", UNKNOWN, None, 0.0, "engine", str(ex))
+        return res
+    res.take_engine(eng, "", timeout, mf)
+    for q in outs:
+        if q.ctl[0] != "ret":
+            res.addk("is_required[top_level_name].is_outer_required", "functional", REFUTED, {"ctl": str(q.ctl)}, 0.0, "trace", "must return")
+            continue
+        post(res, "is_required[top_level_name].is_outer_required", list(q.pc) + list(q.axioms),
+             eng.truth(q.ctl[1], q) == (NODE_RT(PN(1)) == en["FieldRepetitionType"]["REQUIRED"]), timeout,
+             "is_required(path_in_schema[0]) <=> the top-level element of the path is REQUIRED (so `null = not is_required(...)` is `outer group OPTIONAL`)", mf)
+    return res
+
+
+def check_shape(which, timeout):
+    """_is_list_like / _is_map_like accept exactly the 3-level layouts"""
+    from vc.front_py import parse_module
+    res = KResults()
+    funcs, tree, src = parse_module("fastparquet/schema.py")
+    en = enums_from_source()
+    _EN.update(en)
+    mf = _mf_schema(en)
+    fn = "_is_list_like" if which == "list" else "_is_map_like"
+    lay = list_layout(en) if which == "list" else map_layout(en)
+    eng = _schema_engine(funcs, en)
+    p = Path()
+    p.pc += path_facts(en, [PATH_LEN - 2, PATH_LEN - 1])
+    column = Custom(NS({"meta_data": Custom(NS({"path_in_schema": Custom(PathV())}, "meta_data"))}, "column"))
+    r = solve(list(p.pc) + [lay], timeout)
+    res.addk(f"{fn}.layout_satisfiable", "functional", PROVED if r[0] == REFUTED else UNKNOWN, None, r[2], "z3", "vacuity guard: a path with the layout exists")
+    try:
+        outs = eng.run(fn, p, [Custom(Helper()), column], closure={"parquet_thrift": thrift_ns(en)})
+    except Unsupported as ex:
+        res.addk(f"{fn}.out_of_reach", "functional", UNKNOWN, None, 0.0, "engine", str(ex))
+        return res
+    res.take_engine(eng, "", timeout, mf)
+    n = 0
+    RT = en["FieldRepetitionType"]
+    outer_rep = NODE_RT(PN(PATH_LEN - 2)) == RT["REPEATED"]
+    for q in outs:
+        if q.ctl[0] != "ret":
+            res.addk(f"{fn}.no_exception", "functional", REFUTED, {"ctl": str(q.ctl)}, 0.0, "trace", "a valid path must not raise")
+            continue
+        n += 1
+        r_ = eng.truth(q.ctl[1], q)
+        pcs = list(q.pc) + list(q.axioms)
+        post(res, f"{fn}.true_only_for_the_{which}_layout[outer_not_repeated]", pcs + [z3.Not(outer_rep)], z3.Implies(r_, lay), timeout,
+             f"a True answer implies the 3-level {which.upper()} layout (outer group OPTIONAL or REQUIRED)", mf)
+        post(res, f"{fn}.true_only_for_the_{which}_layout[outer_repeated]", pcs + [outer_rep], z3.Implies(r_, lay), timeout,
+             f"a group annotated {which.upper()} that is itself REPEATED is not the layout (its leaf has two repeated ancestors)", mf)
+        post(res, f"{fn}.true_for_every_{which}_layout", pcs, z3.Implies(lay, r_), timeout, f"every column of the 3-level {which.upper()} layout is accepted", mf)
+    if n == 0:
+        res.addk(f"{fn}.true_for_every_{which}_layout", "functional", UNKNOWN, None, 0.0, "engine", "no returning path")
+    return res
+
+
+# =====================================================================================================================
+# Part 3: core.py - the row index handed from page to page (read_col, read_data_page_v2), key/value zipping (read_row_group_arrays)
+# =====================================================================================================================
+class Lenient:
+    """object whose unknown attributes are memoised opaque values (column metadata, headers)"""
+    tracked = False
+
+    def __init__(self, name, d=None):
+        self.name, self.d = name, dict(d or {})
+
+    def attr(self, eng, p, name):
+        if name not in self.d:
+            self.d[name] = Opaque((self.name, name))
+        return self.d[name]
+
+    def setattr(self, eng, p, name, v):
+        self.d[name] = v
+
+    def is_none(self, eng, p):
+        return z3.BoolVal(False)
+
+    def truth(self, eng, p):
+        return z3.BoolVal(True)
+
+    def call_method(self, eng, p, name, args, kw, node):
+        if self.name == "np" and name in ("empty", "zeros", "frombuffer"):
+            return [(p, Custom(TagArr(f"np.{name}!{next(eng.counter)}")))]
+        return [(p, Opaque((self.name, name + "()", next(eng.counter))))]
+
+
+class Cell:
+    """a one-element list used as a mutable cell (row_idx = [0]); content in p.ghost['cell'][oid]"""
+    tracked = False
+
+    def __init__(self, oid):
+        self.oid = oid
+
+    def is_none(self, eng, p):
+        return z3.BoolVal(False)
+
+    def getitem(self, eng, p, i, node=None):
+        if not z3.is_true(z3.simplify(eng.as_int(i, p) == 0)):
+            raise Unsupported("cell[k], k != 0")
+        return p.ghost["cell"][self.oid]
+
+    def setitem(self, eng, p, i, v, node=None):
+        if not z3.is_true(z3.simplify(eng.as_int(i, p) == 0)):
+            raise Unsupported("cell[k] = ..., k != 0")
+        p.ghost["cell"][self.oid] = v
+        return [p]
+
+
+class TagArr:
+    """an array value identified by a tag (the levels / values a page reader returned); may be None"""
+    tracked = False
+
+    def __init__(self, tag, isnone=None, dtype_kind=None):
+        self.tag, self.isnone, self.dtype_kind = tag, z3.BoolVal(False) if isnone is None else isnone, dtype_kind
+
+    def is_none(self, eng, p):
+        return self.isnone
+
+    def len(self, eng, p):
+        key = ("len", self.tag)
+        if key not in p.opq:
+            n = eng.fresh_int("len_" + self.tag)
+            p.pc.append(n >= 0)
+            p.opq[key] = PyI(n)
+        return p.opq[key]
+
+    def attr(self, eng, p, name):
+        if name == "dtype" and self.dtype_kind:
+            return Custom(Lenient("dtype", {"kind": Str(self.dtype_kind)}))
+        return Opaque((self.tag, name))
+
+    def call_method(self, eng, p, name, args, kw, node):
+        return [(p, Opaque((self.tag, name + "()", next(eng.counter))))]
+
+    def getitem(self, eng, p, i, node=None):
+        return Opaque((self.tag, "[]", next(eng.counter)))
+
+    def slice(self, eng, p, lo, hi, node):
+        return Custom(SliceOf(self, eng.as_int(lo, p) if lo is not None else None, eng.as_int(hi, p) if hi is not None else None))
+
+    def setitem(self, eng, p, i, v, node=None):
+        return [p]
+
+    def truth(self, eng, p):
+        return z3.BoolVal(True)
+
+    def eq(self, eng, p, other):
+        return eng.fresh("arr_eq", z3.BoolSort())          # element-wise comparison: an opaque mask
+
+    def binop(self, eng, p, op, other, node):
+        return Opaque((self.tag, "binop", next(eng.counter)))
+
+
+class SliceOf:
+    tracked = False
+
+    def __init__(self, base, lo, hi):
+        self.base, self.lo, self.hi = base, lo, hi
+
+    def is_none(self, eng, p):
+        return z3.BoolVal(False)
+
+    def attr(self, eng, p, name):
+        return Opaque(("slice", name))
+
+    def call_method(self, eng, p, name, args, kw, node):
+        return [(p, Opaque(("slice", name + "()", next(eng.counter))))]
+
+    def getitem(self, eng, p, i, node=None):
+        return Opaque(("slice[]", next(eng.counter)))
+
+    def slice(self, eng, p, lo, hi, node):
+        return Opaque(("slice[:]", next(eng.counter)))
+
+    def setitem(self, eng, p, i, v, node=None):
+        return [p]
+
+
+class CoreHelper(Helper):
+    """schema_helper as seen by core.py: the level functions and is_required by their contracts (Part 2)"""
+
+    def call_method(self, eng, p, name, args, kw, node):
+        is_path = len(args) == 1 and isinstance(args[0], Custom) and isinstance(args[0].h, PathV)
+        if name == "max_definition_level" and is_path:
+            return [(p, PyI(z3.Int("max_definition_level(path)")))]
+        if name == "max_repetition_level" and is_path:
+            return [(p, PyI(z3.Int("max_repetition_level(path)")))]
+        if name == "is_required" and len(args) == 1 and isinstance(args[0], Custom) and isinstance(args[0].h, NameAt) \
+                and z3.is_true(z3.simplify(args[0].h.idx == 0)):
+            return [(p, PyB(z3.Bool("outer_group_is_REQUIRED")))]
+        if name == "schema_element":
+            return Helper.call_method(self, eng, p, name, args, kw, node)
+        raise Unsupported("schema_helper." + name + "(...) with these arguments")
+
+
+def _is_obj(v, cls, tag=None):
+    return isinstance(v, Custom) and isinstance(v.h, cls) and (tag is None or v.h.tag == tag)
+
+
+def _core_engine(funcs, handlers, loops):
+    eng = Engine(funcs=funcs, handlers=handlers, loops=loops, opaque_calls=True)
+    orig_list = eng.e_List
+
+    def e_list(node, p):
+        if len(node.elts) == 1 and isinstance(node.elts[0], ast.Constant) and isinstance(node.elts[0].value, int):
+            oid = f"cell!{next(eng.counter)}"
+            p.ghost.setdefault("cell", {})
+            p.ghost["cell"][oid] = PyI(node.elts[0].value)
+            return [(p, Custom(Cell(oid)))]
+        return orig_list(node, p)
+    eng.e_List = e_list
+    orig_assign = eng.assign
+
+    def assign(t, v, p):
+        # `x[a:b] = v`: the engine has no slice stores; a proof-script object with `setslice` records it, on anything else (opaque
+        # numpy values, arrays not under contract here) it has no effect the obligations of this part depend on
+        if isinstance(t, ast.Subscript) and isinstance(t.slice, ast.Slice):
+            outs = []
+            for q, o in eng.ev(t.value, p):
+                if isinstance(o, Custom) and hasattr(o.h, "setslice"):
+                    o.h.setslice(eng, q, t.slice, v, t)
+                elif isinstance(o, Custom) and getattr(o.h, "tracked", False):
+                    raise Unsupported("slice store into a tracked object")
+                outs.append(q)
+            return outs
+        return orig_assign(t, v, p)
+    eng.assign = assign
+    orig_compare = eng.e_Compare
+
+    def e_compare(e, p):
+        # numpy: a comparison with an array operand is an element-wise mask (an opaque array), not a bool
+        if len(e.ops) == 1 and isinstance(e.ops[0], (ast.Eq, ast.NotEq, ast.Lt, ast.LtE, ast.Gt, ast.GtE)):
+            out = []
+            for q, a in eng.ev(e.left, p):
+                for r, b in eng.ev(e.comparators[0], q):
+                    if any(isinstance(x, Custom) and isinstance(x.h, (TagArr, SliceOf)) for x in (a, b)):
+                        out.append((r, Opaque(("mask", next(eng.counter)))))
+                    else:
+                        out.append((r, PyB(eng.compare(e.ops[0], a, b, r, e))))
+            return out
+        return orig_compare(e, p)
+    eng.e_Compare = e_compare
+    orig_identical = eng.identical
+
+    def identical(a, b, p):
+        if a is b or (isinstance(a, Opaque) and isinstance(b, Opaque) and a.tag == b.tag):
+            return z3.BoolVal(True)
+        if isinstance(a, (Opaque, Custom)) and isinstance(b, (Opaque, Custom)):
+            key = ("is", str(getattr(a, "tag", id(a))), str(getattr(b, "tag", id(b))))
+            if key not in p.opq:
+                p.opq[key] = eng.fresh("is", z3.BoolSort())
+            return p.opq[key]
+        return orig_identical(a, b, p)
+    eng.identical = identical
+    orig_unary = eng.e_UnaryOp
+
+    def e_unary(e, p):
+        if isinstance(e.op, ast.Invert):
+            out = []
+            for q, v in eng.ev(e.operand, p):
+                if isinstance(v, (Opaque, Custom)):
+                    out.append((q, Opaque(("~", next(eng.counter)))))          # ~mask of an opaque numpy array
+                elif isinstance(v, PyI):
+                    out.append((q, PyI(-v.z - 1)))
+                else:
+                    raise Unsupported("invert of " + type(v).__name__)
+            return out
+        return orig_unary(e, p)
+    eng.e_UnaryOp = e_unary
+    return eng
+
+
+def check_read_col(timeout):
+    """core.read_col: one arbitrary iteration of the page loop for a repeated (LIST / MAP leaf) column"""
+    from vc.front_py import parse_module
+    res = KResults()
+    funcs, tree, src = parse_module("fastparquet/core.py")
+    en = enums_from_source()
+    _EN.update(en)
+    RS, ROWSP = z3.Int("rows_started_so_far"), z3.Int("rows_started_in_this_page")
+    MAXDEF, OUTER_REQ = z3.Int("max_definition_level(path)"), z3.Bool("outer_group_is_REQUIRED")
+    PT, ENC = z3.Int("page_type"), z3.Int("page_encoding")
+    state = {"calls": [], "v2": []}
+    assign = Custom(TagArr("assign", dtype_kind="O"))
+    mf = lambda m: {"rows_started_so_far": mv(m, RS), "rows_started_in_this_page": mv(m, ROWSP), "page_type": mv(m, PT), "page_encoding": mv(m, ENC),
+                    "outer_group_is_REQUIRED": mv(m, OUTER_REQ)}
+
+    def pose(name, p, goal, detail, kind="functional"):
+        post(res, name, list(p.pc) + list(p.axioms), goal, timeout, detail, mf, kind=kind)
+
+    def h_from_buffer(eng, p, args, kw, node):
+        ph = Custom(Lenient("ph", {"type": PyI(PT), "data_page_header": Custom(Lenient("data_page_header", {"encoding": PyI(ENC)})),
+                                   "data_page_header_v2": Custom(Lenient("data_page_header_v2"))}))
+        return [(p, ph)]
+
+    def h_read_data_page(eng, p, args, kw, node):
+        k = next(eng.counter)
+        t = Tup([Custom(TagArr(f"defi!{k}", z3.Bool(f"defi_is_None!{k}"))), Custom(TagArr(f"rep!{k}", z3.Bool(f"rep_is_None!{k}"))), Custom(TagArr(f"val!{k}"))])
+        p.ghost["page"] = t.items
+        return [(p, t)]
+
+    def h_assemble(eng, p, args, kw, node):
+        names = ["assign", "defi", "rep", "val", "dic", "d", "null", "null_val", "max_defi", "prev_i"]
+        a = dict(zip(names, args))
+        a.update(kw)
+        page = p.ghost.get("page")
+        cellv = p.ghost["cell"][p.ghost["row_idx_oid"]]
+        pose("read_col.assemble.output_is_the_row_group_array", p, z3.BoolVal(a.get("assign") is assign),
+             "the kernel gets the whole output array of the row group (rows of earlier pages are at their indices), not a slice or copy")
+        ok = page is not None and all(a.get(n) is page[k] for k, n in enumerate(("defi", "rep", "val")))
+        pose("read_col.assemble.levels_and_values_of_this_page", p, z3.BoolVal(bool(ok)),
+             "defi, rep, val are the definition levels, repetition levels and values read_data_page returned for THIS page, in that order")
+        pose("read_col.assemble.dictionary_is_the_current_one", p, z3.BoolVal(a.get("dic") is p.ghost.get("dic_in")),
+             "dic is the dictionary of the last dictionary page seen")
+        pose("read_col.assemble.d_iff_dictionary_encoded_page", p,
+             eng.truth(a["d"], p) == z3.Or(ENC == en["Encoding"]["PLAIN_DICTIONARY"], ENC == en["Encoding"]["RLE_DICTIONARY"]),
+             "values are dereferenced through the dictionary exactly for PLAIN_DICTIONARY / RLE_DICTIONARY pages")
+        pose("read_col.assemble.null_iff_outer_optional", p, eng.truth(a["null"], p) == z3.Not(OUTER_REQ),
+             "null <=> the outer LIST / MAP group is not REQUIRED (definition level 0 means a null row only then)")
+        pose("read_col.assemble.max_defi_is_the_leaf_max_definition_level", p, eng.as_int(a["max_defi"], p) == MAXDEF,
+             "max_defi == schema_helper.max_definition_level(path of this leaf)")
+        pose("read_col.assemble.prev_i_is_rows_started_so_far", p, eng.as_int(a["prev_i"], p) == RS,
+             "prev_i == number of rows started by the earlier pages of the chunk (the cell row_idx[0])")
+        state["calls"].append(1)
+        ret = eng.fresh_int("assemble_result")
+        p.pc += [ROWSP >= 0, ret == RS + ROWSP - 1]        # callee contract (Part 1: returns_index_of_last_row_started)
+        p.ghost["assembled"] = True
+        return [(p, PyI(ret))]
+
+    def h_v2(eng, p, args, kw, node):
+        f = funcs["read_data_page_v2"]
+        a = dict(zip(f.params, args))
+        a.update(kw)
+        idx = a.get("idx")
+        pose("read_col.v2.row_index_cell_is_shared", p, z3.BoolVal(isinstance(idx, Custom) and isinstance(idx.h, Cell) and idx.h.oid == p.ghost["row_idx_oid"]),
+             "read_data_page_v2 gets the same row_idx cell (it advances it by the page's num_rows)")
+        pose("read_col.v2.output_is_the_row_group_array", p, z3.BoolVal(a.get("assign") is assign), "the whole output array is passed")
+        p.ghost["v2"] = True
+        state["v2"].append(1)
+        return [(p, PyI(eng.fresh_int("v2_values")))]
+
+    def hook(eng, st, p):
+        cells = [(k, v) for k, v in p.env.items() if isinstance(v, Custom) and isinstance(v.h, Cell)]
+        if len(cells) != 1:
+            raise Unsupported("expected exactly one one-element list cell (row_idx) before the page loop")
+        cname, cell = cells[0]
+        pose("read_col.row_index_starts_at_0", p, eng.as_int(p.ghost["cell"][cell.h.oid], p) == 0, "no row started before the first page")
+        q = p.fork()
+        q.ghost["row_idx_oid"] = cell.h.oid
+        for nm in sorted(assigned_names(st.body)):
+            if nm not in q.env:
+                continue
+            v = q.env[nm]
+            if isinstance(v, NoneV) or nm == cname:
+                q.env[nm] = Opaque(f"{nm}_havoc!{next(eng.counter)}") if nm != cname else v
+            elif isinstance(v, (PyI, PyB, CI, Opaque)):
+                q.env[nm] = eng.havoc_like(v, nm + "_havoc", q)
+            elif isinstance(v, Custom) and isinstance(v.h, TagArr) and v is assign:
+                raise Unsupported("the page loop rebinds `assign`")
+            else:
+                q.env[nm] = Opaque(f"{nm}_havoc!{next(eng.counter)}")
+        q.ghost["cell"][cell.h.oid] = PyI(RS)
+        q.pc += [RS >= 0]
+        if "dic" in q.env:
+            q.ghost["dic_in"] = q.env["dic"]
+        outs = eng.block(st.body, [q])
+        n = {"assemble": 0, "dict": 0, "v2": 0, "other": 0}
+        for b in outs:
+            if b.ctl not in (None, "continue"):
+                continue                                        # raise paths: rejected input
+            cv = eng.as_int(b.ghost["cell"][cell.h.oid], b)
+            if b.ghost.get("assembled"):
+                n["assemble"] += 1
+                pose("read_col.row_index_handed_to_next_page[v1_repeated_page]", b, cv == RS + ROWSP,
+                     "after a v1 page of a repeated column row_idx[0] == rows started so far, this page included (1 + index of the last row started): "
+                     "the next page's continuation entries extend that row, its first rep == 0 entry starts the next one")
+            elif b.ghost.get("v2"):
+                n["v2"] += 1
+            else:
+                n["other"] += 1
+                pose("read_col.row_index_unchanged_by_other_pages", b, cv == RS,
+                     "dictionary pages and pages of non-repeated columns leave the row index alone")
+        state["n"] = n
+        if n["assemble"] == 0:
+            res.addk("read_col.row_index_handed_to_next_page[v1_repeated_page]", "functional", UNKNOWN, None, 0.0, "engine", "no path reaches _assemble_objects")
+        ex = p.fork()
+        for nm in sorted(assigned_names(st.body)):
+            if nm in ex.env and nm != cname:
+                ex.env[nm] = Opaque(f"{nm}_exit!{next(eng.counter)}")
+        ex.ghost["cell"][cell.h.oid] = PyI(z3.Int("rows_started_at_exit"))
+        return [ex]
+
+    handlers = {"ThriftObject.from_buffer": h_from_buffer, "read_data_page": h_read_data_page, "encoding._assemble_objects": h_assemble,
+                "read_data_page_v2": h_v2, "min": lambda e, p, a, k, n: [(p, Opaque(("min", next(e.counter))))]}
+    eng = _core_engine(funcs, handlers, {("read_col", 0): LoopSpec("hook", inv=hook)})
+    p = Path()
+    p.pc += path_facts(en, [])
+    cmd = Custom(Lenient("cmd", {"path_in_schema": Custom(PathV()), "num_values": PyI(z3.Int("chunk_num_values"))}))
+    column = Custom(Lenient("column", {"meta_data": cmd}))
+    kwargs = {"use_cat": PyB(False), "selfmade": PyB(z3.Bool("selfmade")), "assign": assign, "catdef": NONE, "row_filter": NONE}
+    try:
+        eng.run("read_col", p, [column, Custom(CoreHelper()), Opaque("infile")], kwargs,
+                closure={"parquet_thrift": thrift_ns(dict(en, CompressionCodec={"UNCOMPRESSED": 0})), "np": Custom(Lenient("np")), "pd": Custom(Lenient("pd"))})
+    except Unsupported as ex:
+        res.addk("read_col.out_of_reach", "functional", UNKNOWN, None, 0.0, "engine", str(ex))
+        return res
+    eng.oblig = [ob for ob in eng.oblig if ob.kind in ("safety",) and "None" in ob.name]
+    res.take_engine(eng, "", timeout, mf)
+    if not state["v2"]:
+        res.addk("read_col.v2.row_index_cell_is_shared", "functional", UNKNOWN, None, 0.0, "engine", "no path reaches read_data_page_v2")
+    return res
+
+
+def check_v2(timeout):
+    """core.read_data_page_v2 for a repeated column (max_repetition_level(path) != 0): every page encoding it accepts must run record
+    assembly with arguments that satisfy the kernel's precondition, and advance the shared row index by the page's num_rows"""
+    from vc.front_py import parse_module
+    res = KResults()
+    funcs, tree, src = parse_module("fastparquet/core.py")
+    en = enums_from_source()
+    _EN.update(en)
+    RS = z3.Int("rows_started_so_far")
+    MAXDEF, MAXREP, OUTER_REQ = z3.Int("max_definition_level(path)"), z3.Int("max_repetition_level(path)"), z3.Bool("outer_group_is_REQUIRED")
+    ENC, NROWS, NNULLS, NVALS = z3.Int("page_encoding"), z3.Int("page_num_rows"), z3.Int("page_num_nulls"), z3.Int("page_num_values")
+    encname = {v: k for k, v in en["Encoding"].items()}
+    mf = lambda m: {"rows_started_so_far": mv(m, RS), "page_encoding": encname.get(mv(m, ENC), mv(m, ENC)), "page_num_rows": mv(m, NROWS),
+                    "page_num_nulls": mv(m, NNULLS), "outer_group_is_REQUIRED": mv(m, OUTER_REQ), "max_definition_level": mv(m, MAXDEF)}
+    assign = Custom(TagArr("assign", dtype_kind="O"))
+    state = {"n": 0}
+
+    def pose(name, p, goal, detail, kind="functional"):
+        post(res, name, list(p.pc) + list(p.axioms), goal, timeout, detail, mf, kind=kind)
+
+    def h_assemble(eng, p, args, kw, node):
+        names = ["assign", "defi", "rep", "val", "dic", "d", "null", "null_val", "max_defi", "prev_i"]
+        a = dict(zip(names, args))
+        a.update(kw)
+        state["n"] += 1
+        out = a.get("assign")
+        ok = isinstance(out, Custom) and isinstance(out.h, SliceOf) and out.h.base is assign.h and out.h.lo is not None and out.h.hi is not None
+        pose("read_data_page_v2.assemble.output_is_rows_of_this_page", p,
+             z3.And(out.h.lo == RS, out.h.hi == RS + NROWS, eng.as_int(a["prev_i"], p) == 0) if ok else z3.BoolVal(False),
+             "the kernel writes assign[rows so far : rows so far + num_rows] starting at its row 0 (v2 pages start on a row boundary)")
+        for nm in ("defi", "rep"):
+            v = a.get(nm)
+            bound = not (isinstance(v, Opaque) and isinstance(v.tag, str) and v.tag.startswith("global:"))
+            for cname, cc in (("page_with_nulls", NNULLS > 0), ("page_without_nulls", NNULLS == 0)):
+                if solve(list(p.pc) + [cc], 2000)[0] != PROVED:
+                    post(res, f"read_data_page_v2.assemble.{nm}_levels_were_read[{cname}]", list(p.pc) + [cc], z3.BoolVal(bound), timeout,
+                         f"the {nm} argument is a local that was assigned on this path (otherwise UnboundLocalError: a valid page is refused)", mf)
+        for cname, cc in (("outer_optional", z3.Not(OUTER_REQ)), ("outer_required", OUTER_REQ)):
+            post(res, f"read_data_page_v2.assemble.null_iff_outer_optional[{cname}]", list(p.pc) + [cc], eng.truth(a["null"], p) == z3.Not(OUTER_REQ), timeout,
+                 "null <=> the outer LIST / MAP group is not REQUIRED (definition level 0 means `row is null` only then)", mf)
+        pose("read_data_page_v2.assemble.max_defi_is_the_leaf_max_definition_level", p, eng.as_int(a["max_defi"], p) == MAXDEF, "max_defi == max_definition_level(path)")
+        pose("read_data_page_v2.assemble.d_iff_dictionary_encoded_page", p,
+             eng.truth(a["d"], p) == z3.Or(ENC == en["Encoding"]["PLAIN_DICTIONARY"], ENC == en["Encoding"]["RLE_DICTIONARY"]),
+             "values go through the dictionary exactly for dictionary-encoded pages")
+        p.ghost["assembled"] = True
+        return [(p, PyI(eng.fresh_int("assemble_result")))]
+
+    handlers = {"encoding._assemble_objects": h_assemble}
+    eng = _core_engine(funcs, handlers, {})
+    p = Path()
+    p.pc += path_facts(en, []) + [RS >= 0, NROWS >= 0, NNULLS >= 0, NVALS >= NNULLS, MAXREP == 1, MAXDEF >= 1, MAXDEF <= 3]
+    oid = "cell!idx"
+    p.ghost["cell"] = {oid: PyI(RS)}
+    idx = Custom(Cell(oid))
+    dh2 = Custom(Lenient("data_header2", {"encoding": PyI(ENC), "num_rows": PyI(NROWS), "num_nulls": PyI(NNULLS), "num_values": PyI(NVALS)}))
+    cmd = Custom(Lenient("cmd", {"path_in_schema": Custom(PathV())}))
+    f = funcs["read_data_page_v2"]
+    argv = {"infile": Opaque("infile"), "schema_helper": Custom(CoreHelper()), "se": Custom(Lenient("se")), "data_header2": dh2, "cmd": cmd,
+            "dic": Opaque("dic"), "assign": assign, "num": PyI(z3.Int("num")), "use_cat": PyB(False), "file_offset": Opaque("off"),
+            "ph": Custom(Lenient("ph")), "idx": idx, "selfmade": PyB(z3.Bool("selfmade")), "row_filter": NONE}
+    try:
+        outs = eng.run("read_data_page_v2", p, [argv[n] for n in f.params],
+                       closure={"parquet_thrift": thrift_ns(dict(en, CompressionCodec={"UNCOMPRESSED": 0})), "np": Custom(Lenient("np")), "pd": Custom(Lenient("pd"))})
+    except Unsupported as ex:
+        res.addk("read_data_page_v2.out_of_reach", "functional", UNKNOWN, None, 0.0, "engine", str(ex))
+        return res
+    eng.oblig = []
+    nret = 0
+    for q in outs:
+        if q.ctl[0] != "ret":
+            continue
+        nret += 1
+        feas = sorted(nm for ev, nm in encname.items() if solve(list(q.pc) + [ENC == ev], 2000)[0] != PROVED)
+        tag = "[" + "|".join(feas) + "]"
+        pose(f"read_data_page_v2.repeated_column_is_assembled{tag}", q, z3.BoolVal(bool(q.ghost.get("assembled"))),
+             "a page of a column with a repeated ancestor goes through record assembly whatever its value encoding")
+        if q.ghost.get("assembled"):
+            pose(f"read_data_page_v2.row_index_advanced_by_num_rows{tag}", q, eng.as_int(q.ghost["cell"][oid], q) == RS + NROWS,
+                 "idx[0] (shared with read_col) ends as rows so far + the page's num_rows: the next page's rows go to the next slots")
+    if nret == 0:
+        res.addk("read_data_page_v2.repeated_column_is_assembled", "functional", UNKNOWN, None, 0.0, "engine", "no returning path")
+    res.addk("read_data_page_v2.paths", "functional", PROVED, None, 0.0, "engine", f"{nret} returning paths, {state['n']} reach _assemble_objects")
+    return res
+
+
+# ---- read_row_group_arrays: key / value zipping of a MAP column ------------------------------------------------------------------
+ROWNONE = z3.Function("LEAF_ROW_is_None", I, I, B)           # (leaf 1 = read first | 2 = read second, row) -> the assembled row is None
+
+
+class RowObj:
+    """row `i` of the array assembled from leaf `leaf`"""
+    tracked = False
+
+    def __init__(self, leaf, i):
+        self.leaf, self.i = leaf, i
+
+    def is_none(self, eng, p):
+        return ROWNONE(self.leaf, self.i)
+
+
+class ColArr:
+    """the array out[name]; what it currently holds (which leaf's rows) is p.ghost['holds'][id]; .copy() snapshots it"""
+    tracked = False
+
+    def __init__(self, oid):
+        self.oid = oid
+
+    def is_none(self, eng, p):
+        return z3.BoolVal(False)
+
+    def call_method(self, eng, p, name, args, kw, node):
+        if name == "copy" and not args:
+            k = f"copy!{next(eng.counter)}"
+            p.ghost["holds"][k] = p.ghost["holds"][self.oid]
+            return [(p, Custom(ColArr(k)))]
+        raise Unsupported("array." + name)
+
+    def setslice(self, eng, p, sl, v, node):
+        if sl.lower is not None or sl.upper is not None or sl.step is not None:
+            raise Unsupported("partial slice store into out[name]")
+        p.ghost["stored"] = p.ghost.get("stored", []) + [(self.oid, v)]
+
+
+class ZipArr:
+    tracked = False
+
+    def __init__(self, a, b):
+        self.a, self.b = a, b
+
+    def arbitrary(self, eng, p):
+        i = z3.Int("i_skolem_row")
+        return Tup([Custom(RowObj(p.ghost["holds"][self.a.oid], i)), Custom(RowObj(p.ghost["holds"][self.b.oid], i))])
+
+
+class ZipRows:
+    tracked = False
+
+    def __init__(self, k, v):
+        self.k, self.v = k, v
+
+
+class DictOf:
+    tracked = False
+
+    def __init__(self, z):
+        self.z = z
+
+    def is_none(self, eng, p):
+        return z3.BoolVal(False)
+
+
+class MapsDict:
+    """the local dict `maps`: name -> array (at most the one name of this column)"""
+    tracked = False
+
+    def contains(self, eng, p, item):
+        return z3.BoolVal(p.ghost.get("maps") is not None)
+
+    def setitem(self, eng, p, k, v, node=None):
+        p.ghost["maps"] = v
+        return [p]
+
+    def getitem(self, eng, p, k, node=None):
+        if p.ghost.get("maps") is None:
+            raise Unsupported("maps[name] before it was set")
+        return p.ghost["maps"]
+
+    def delitem(self, eng, p, k):
+        p.ghost["maps"] = None
+
+
+def check_map_zip(timeout):
+    """core.read_row_group_arrays: the `if _is_map_like(...)` block executed for the FIRST leaf of a MAP column and then for the SECOND
+    (read_col refills out[name] in between); precondition: the column chunks of a row group are in schema order, so the first is the
+    'key' leaf, the second the 'value' leaf."""
+    from vc.front_py import parse_module
+    res = KResults()
+    funcs, tree, src = parse_module("fastparquet/core.py")
+    f = funcs["read_row_group_arrays"]
+    blocks = [n for n in ast.walk(f.tree) if isinstance(n, ast.If) and isinstance(n.test, ast.Call) and isinstance(n.test.func, ast.Name)
+              and n.test.func.id == "_is_map_like"]
+    if len(blocks) != 1:
+        res.addk("map_zip.out_of_reach", "functional", UNKNOWN, None, 0.0, "engine", f"expected one `if _is_map_like(...)` block, found {len(blocks)}")
+        return res
+    blk = blocks[0]
+    TOPKEY = name_is(2, z3.IntVal(0), "key")
+    iS = z3.Int("i_skolem_row")
+    mf = lambda m: {"top_level_column_name_is_'key'": mv(m, TOPKEY), "row": mv(m, iS), "key_row_is_None": mv(m, ROWNONE(1, iS)),
+                    "value_row_is_None": mv(m, ROWNONE(2, iS))}
+
+    def h_zip(eng, p, args, kw, node):
+        a, b = args
+        if _is_obj(a, ColArr) and _is_obj(b, ColArr):
+            return [(p, Custom(ZipArr(a.h, b.h)))]
+        if _is_obj(a, RowObj) and _is_obj(b, RowObj):
+            return [(p, Custom(ZipRows(a.h, b.h)))]
+        raise Unsupported("zip of these values")
+
+    def h_dict(eng, p, args, kw, node):
+        if len(args) == 1 and _is_obj(args[0], ZipRows):
+            return [(p, Custom(DictOf(args[0].h)))]
+        raise Unsupported("dict(...)")
+
+    class OutDict:
+        tracked = False
+
+        def __init__(self, arr):
+            self.arr = arr
+
+        def getitem(self, eng, p, k, node=None):
+            return self.arr
+
+    eng = _core_engine(funcs, {"zip": h_zip, "dict": h_dict, "_is_map_like": lambda e, p, a, k, n: [(p, PyB(True))]}, {})
+
+    def s_delete(st, p):
+        outs = [p]
+        for t in st.targets:
+            if not isinstance(t, ast.Subscript):
+                raise Unsupported("del <name>")
+            nxt = []
+            for q in outs:
+                for r, o in eng.ev(t.value, q):
+                    for r2, k in eng.ev(t.slice, r):
+                        if isinstance(o, Custom) and hasattr(o.h, "delitem"):
+                            o.h.delitem(eng, r2, k)
+                            nxt.append(r2)
+                        else:
+                            raise Unsupported("del on " + type(o).__name__)
+            outs = nxt
+        return outs
+    eng.s_Delete = s_delete
+    eng.cur_func = "read_row_group_arrays"
+    arr = Custom(ColArr("out[name]"))
+    p = Path()
+    p.ghost.update(holds={"out[name]": 1}, maps=None, stored=[])
+    mkcol = lambda pid: Custom(Lenient("column", {"meta_data": Custom(Lenient("meta_data", {"path_in_schema": Custom(PathV(pid))}))}))
+    p.env = {"out": Custom(OutDict(arr)), "maps": Custom(MapsDict()), "name": Str("<column name>"), "column": mkcol(1), "schema_helper": Opaque("schema_helper")}
+    last = PATH_LEN - 1
+    # schema order: the first leaf is <name>.key_value.key, the second <name>.key_value.value; both share the top-level name
+    p.pc += [PATH_LEN == 3, name_is(1, last, "key"), z3.Not(name_is(1, last, "value")), name_is(2, last, "value"), z3.Not(name_is(2, last, "key")),
+             name_is(1, z3.IntVal(0), "key") == name_is(2, z3.IntVal(0), "key"), name_is(1, z3.IntVal(0), "value") == name_is(2, z3.IntVal(0), "value")]
+    try:
+        firsts = eng.block([blk], [p])
+        seconds = []
+        for q in firsts:
+            if q.ctl is not None:
+                continue
+            post(res, "map_zip.first_leaf_is_kept_aside", q.pc, z3.BoolVal(_is_obj(q.ghost.get("maps"), ColArr) and q.ghost["holds"].get(q.ghost["maps"].h.oid) == 1
+                                                                          and q.ghost["maps"].h.oid != "out[name]" and not q.ghost["stored"]),
+                 timeout, "after the first leaf of a MAP column a COPY of its rows is kept (read_col reuses out[name] for the second leaf) and nothing is stored yet", mf)
+            q.ghost["holds"]["out[name]"] = 2                      # read_col of the second leaf refilled out[name]
+            q.env["column"] = mkcol(2)
+            seconds += eng.block([blk], [q])
+    except Unsupported as ex:
+        res.addk("map_zip.out_of_reach", "functional", UNKNOWN, None, 0.0, "engine", str(ex))
+        return res
+    n = 0
+    for q in seconds:
+        if q.ctl is not None:
+            continue
+        n += 1
+        st = q.ghost["stored"]
+        ok_store = len(st) == 1 and st[0][0] == "out[name]" and isinstance(st[0][1], Custom) and hasattr(st[0][1].h, "elt")
+        pcs = list(q.pc) + list(q.axioms)
+        for cname, cc in (("column_not_named_key", z3.Not(TOPKEY)), ("column_named_key", TOPKEY)):
+            if solve(pcs + [cc], 2000)[0] == PROVED:
+                continue
+            if not ok_store:
+                post(res, f"map_zip.rows_are_dicts_of_key_and_value_rows[{cname}]", pcs + [cc], z3.BoolVal(False), timeout,
+                     "out[name][:] is assigned exactly once, a comprehension over the zipped arrays", mf)
+                continue
+            comp = st[0][1].h
+            elt, coll = comp.elt, comp.coll
+            whole = isinstance(coll, Custom) and isinstance(coll.h, ZipArr) and z3.is_true(z3.simplify(comp.guard))
+            if isinstance(elt, NoneV):
+                goal = ROWNONE(1, iS)
+            elif _is_obj(elt, DictOf):
+                z = elt.h.z
+                goal = z3.And(z3.BoolVal(z.k.leaf == 1 and z.v.leaf == 2 and z3.eq(z.k.i, iS) and z3.eq(z.v.i, iS)), z3.Not(ROWNONE(1, iS)))
+            else:
+                goal = z3.BoolVal(False)
+            post(res, f"map_zip.rows_are_dicts_of_key_and_value_rows[{cname}]", pcs + [cc], z3.And(z3.BoolVal(bool(whole)), goal), timeout,
+                 "row i of the result is None when row i assembled from the 'key' leaf is None, otherwise dict(zip(key row i, value row i)) - "
+                 "keys from the 'key' leaf, values from the 'value' leaf, same row index, every row", mf)
+        post(res, "map_zip.scratch_copy_is_dropped", pcs, z3.BoolVal(q.ghost.get("maps") is None), timeout, "maps[name] is deleted after the zip (a second MAP column starts afresh)", mf)
+    if n == 0:
+        res.addk("map_zip.rows_are_dicts_of_key_and_value_rows", "functional", UNKNOWN, None, 0.0, "engine", "no path through the second leaf")
+    return res
+
+
 def parts():
     """(label, fn(timeout) -> KResults) for every independent piece (run in a process pool by props/_assembly.py)"""
     out = [("assemble" + str(i), (lambda t, cfg=cfg: check_assemble(cfg, t))) for i, cfg in enumerate(CFGS)]
+    out += [("levels.max_rep", lambda t: check_levels("max_repetition_level", t)), ("levels.max_def", lambda t: check_levels("max_definition_level", t)),
+            ("levels.layout", check_layout_levels), ("is_required", check_is_required),
+            ("shape.list", lambda t: check_shape("list", t)), ("shape.map", lambda t: check_shape("map", t)),
+            ("core.read_col", check_read_col), ("core.v2", check_v2), ("core.map_zip", check_map_zip)]
     return out
+
+
+
+
